@@ -156,6 +156,7 @@ def check(ctx):
     ctx.require_min('C18.V', 1)
     ctx.require(len(seen) >= 2, 'C18.L: expected AnyId with both storage kinds (value-comparable and empty) in the witness units, found %d' % len(seen))
     ctx.require_min('C18.L', 3)
+    witness.check_static_unit(ctx, 'C18.W', os.path.join(extract.VERIF, 'witness', 's_meta.cpp'), 'HasEqual / HasLess / digest type', tag='C18')
     witness.check_static_unit(ctx, 'C18.W', os.path.join(extract.VERIF, 'witness', 's_select.cpp'), 'AnyId is hashable and selects unordered_map', tag='C18')
 
 
